@@ -59,6 +59,11 @@ R = {
    "missed at first: the recovered engine was edited and queried but never asked to refresh after the external world had moved. The continuation on every crash image now changes the world, refreshes, and queries every external input."),
  "C11c-rocksdb-member-key-length-one-byte": ("C11", ["C11 quick: VIOLATION (133 s, RocksDB, 4 KiB set key)"], "caught as built (third change for C11; the multi-kilobyte keys of the key pool)"),
  "C14b-combine-ignores-high-half-of-operand": ("C14", ["C14 quick: VIOLATION ([u8; 0] and [u8; 3] share one id)"], "caught as built (second change for C14)"),
+ "C07c-pending-marker-shares-last-verified-key": ("C07", ["C07 quick: VIOLATION (79 s, firewall re-executed after a clean restart although nothing changed)"], "caught as built (third change for C07; by the justified-execution oracle carried across the restart)"),
+ "C10c-shutdown-flag-disables-reorder-buffer": ("C10", ["C10 quick: VIOLATION (35 s, commit log not in creation order)"], "caught as built (third change for C10)"),
+ "C13c-derive-enum-tag-declared-or-position": ("C13", ["C13 quick: VIOLATION (EnDisc: Low and Mid feed the same byte stream)"],
+   "missed at first: no derived enum of the universe declared discriminants. Enums with partly declared discriminants (unit variants and data variants with a small payload domain) were added."),
+ "C15c-vacuum-two-pass-removes-revived-entry": ("C15", ["C15 quick: VIOLATION (31 s, two live handles of equal values, different allocations)"], "caught as built (third change for C15)"),
 }
 rows = []
 for sid, (prop, ran, note) in R.items():
